@@ -73,6 +73,28 @@ var ruleAddendaLater = map[string]string{
 	"C20": "List with prefixes shorter than, equal to and longer than stored keys (single-client programs of <= 3 operations and all pairs of single operations over keys that are prefixes of one another), the map model strips the prefix like the store; the registered SP carries an AttributeConsumingService with requested attributes (with / without NameFormat, with values)",
 }
 
+// ruleAddendaRound6: extensions of the sixth round.
+var ruleAddendaRound6 = map[string]string{
+	"C01": "operators that plant a ciphertext of the attacker's own outside the signed EncryptedAssertion (inside Signature / Object, first / last in the Response, inside the EncryptedAssertion, SOAP Header / Body, envelope Signature), artifact replies with an encrypted assertion; trust configurations that publish the issuing CA next to the signing certificate, re-signing with a sibling leaf of that CA",
+	"C02": "option hooks: ValidateAudienceRestriction and ValidateRequestID installed (accepting) over the full window product",
+	"C03": "group failure-responses (non-Success status without a usable assertion must be ErrBadStatus, 3 entry points); lattice field proxy (ProxyRestriction / OneTimeUse next to the audience restriction)",
+	"C04": "the ArtifactResolve ID as an InResponseTo value on the artifact path; group middleware-request-outstanding-for-the-tracking-lifetime-only",
+	"C05": "group gate-destination-x-what-the-request-says-about-itself (Host header, request-target authority, forwarding headers)",
+	"C06": "oracle: an attribute whose name has a fixed meaning states that field of the session (9 well-known names, 13 requested names)",
+	"C07": "7 lexical shapes of the SP's entity ID / metadata URL; an SP whose registered metadata requests every attribute name the IdP can fill, with the fixed-meaning oracle",
+	"C08": "faults: octets around the key-transport ciphertext; data declared as a cipher its transported key does not fit (16 pairs)",
+	"C09": "every metadata document also goes to the bundled IdP server as the body of PUT /services/{id}, under a 20 s watchdog",
+	"C10": "OAEP reference ciphertexts without the optional DigestMethod child",
+	"C12": "IdP metadata with two role descriptors (endpoints only in the second; bindings split over the two)",
+	"C13": "group signature-method-near-misses (11 almost-URIs); group logout-request-name-ids (11 identifiers with XML-special characters, signed POST / redirect, name read back)",
+	"C14": "forms whose requested ACS URL extends a registered location (path and bare origin) by the peer string, no index",
+	"C15": "group duration-number-forms (24 lexical forms of a number x 11 component templates)",
+	"C17": "group started-url-shapes-and-long-indices (15 URL shapes; application-chosen indices of 81 / 111 / 200+ bytes alone and next to a flow sharing the prefix)",
+	"C18": "issue instants named by calendar year (1700 .. 0001, 9999); IdP-signed messages with another root element (6 kinds)",
+	"C19": "after every faulted request: registry of the running server = registry a restarted server derives from the store",
+	"C20": "group upload-whose-body-arrives-after-another-request (body reader blocking on a scheduler-visible gate, 16 scenarios, preemption bound 2); List over a store of 300 / 1000 fillers while token pairs are replaced in order; the registered SP is also stored under a second name",
+}
+
 // Register adds a check.
 func Register(c *Check) {
 	if a := ruleAddenda[c.ID]; a != "" {
@@ -80,6 +102,9 @@ func Register(c *Check) {
 	}
 	if a := ruleAddendaLater[c.ID]; a != "" {
 		c.Rule += " Later extensions: " + a
+	}
+	if a := ruleAddendaRound6[c.ID]; a != "" {
+		c.Rule += " Sixth round: " + a
 	}
 	registry[c.ID] = c
 }
